@@ -475,8 +475,9 @@ class RangeConstraint(Constraint):
                 ],
             )
 
-        # Check bounds (inclusive)
-        if numeric_value < self.min_value or numeric_value > self.max_value:
+        # Check bounds (inclusive); written as a positive test so that NaN, which compares
+        # false with everything, is rejected instead of slipping through both comparisons
+        if not (self.min_value <= numeric_value <= self.max_value):
             return ValidationResult(
                 valid=False,
                 errors=[
